@@ -444,7 +444,7 @@ def step (w : World) (j : Json) : World × List String :=
     issuer's own store already holds a network revocation for -/
 structure St where
   w : World := emptyWorld
-  issued : Array (String × String × Option StatusEntry) := #[]   -- (id, issuer, status entry)
+  issued : Array (String × String × Option (List StatusEntry)) := #[]   -- (id, issuer, status entry)
   netRevoked : List Nat := []
 
 def iDids : List String :=
@@ -469,17 +469,43 @@ def stepSt (st : St) (j : Json) : St × List String :=
       match (ew'.threads[0]?.map (·.phase) : Option EPhase) with
       | some (EPhase.done l i) =>
         let page := match l with | .sl _ _ p => p | .raw _ => 0
-        ({ st with w := { st.w with a := ew'.node }, issued := st.issued.push (id, issuer, some { list := l, idx := some (i : Int) }) },
+        ({ st with w := { st.w with a := ew'.node }, issued := st.issued.push (id, issuer, some [{ list := l, idx := some (i : Int) }]) },
          [s!"iissue ok k={k} idprefix=true status=StatusList2021Entry/revocation#{issuer}/{page}#{i}"])
       | _ => (st, ["iissue err"])
     else
       ({ st with issued := st.issued.push (id, issuer, none) }, [s!"iissue ok k={k} idprefix=true status=none"])
+  | "iplant" =>
+    -- two sequential Entry calls of the issuer; the stored credential carries both entries, the first one changed by `shape`
+    let issuer := jStr j "issuer"
+    let shape := jStr j "shape"
+    let k := st.issued.size
+    let id := s!"{issuer}#{k}"
+    let (n1, es) := (List.range 2).foldl (fun (acc : Node × List StatusEntry) _ =>
+        let ew : EWorld := { node := acc.1, threads := [{ issuer := issuer }], now := st.w.now }
+        let ew' := soloFrom 40 ew 0
+        match (ew'.threads[0]?.map (·.phase) : Option EPhase) with
+        | some (EPhase.done l i) => (ew'.node, acc.2 ++ [{ list := l, idx := some (i : Int) }])
+        | _ => (ew'.node, acc.2)) (st.w.a, [])
+    match es with
+    | [e1, e2] =>
+      let sts : List StatusEntry :=
+        if shape == "susp-first" then [{ e1 with purpose := "suspension" }, e2]
+        else if shape == "other-first" then [{ e1 with type := "OtherStatus" }, e2]
+        else if shape == "susp-only" then [{ e1 with purpose := "suspension" }]
+        else if shape == "other-only" then [{ e1 with type := "OtherStatus" }]
+        else [e1, e2]
+      let show1 (e : StatusEntry) : String :=
+        let page := match e.list with | .sl _ _ p => p | .raw _ => 0
+        s!"{e.type}/{e.purpose}#{issuer}/{page}#{match e.idx with | some i => toString i | none => "?"}"
+      ({ st with w := { st.w with a := n1 }, issued := st.issued.push (id, issuer, some sts) },
+       [s!"iplant ok k={k} status={String.intercalate "," (sts.map show1)}"])
+    | _ => ({ st with w := { st.w with a := n1 } }, ["iplant err"])
   | "irevoke" =>
     let k := jNat j "k"
     match st.issued[k]? with
     | none => (st, ["irevoke none"])
     | some (id, issuer, status) =>
-      let c : Cred := { id := some id, issuer := issuer, statuses := status.map (fun e => [e]) }
+      let c : Cred := { id := some id, issuer := issuer, statuses := status }
       let kid := issuer ++ "#k1"
       match issuerRevokeRoute (hasSub issuer "did:nuts:") (st.netRevoked.contains k) c id kid ("sig:" ++ kid) 1 with
       | .alreadyRevoked => (st, ["irevoke revoked"])
@@ -500,7 +526,7 @@ def stepSt (st : St) (j : Json) : St × List String :=
     match st.issued[jNat j "k"]? with
     | none => (st, ["iverify none"])
     | some (id, issuer, status) =>
-      let c : Cred := { id := some id, issuer := issuer, statuses := status.map (fun e => [e]) }
+      let c : Cred := { id := some id, issuer := issuer, statuses := status }
       let (v, w') := verifyFull env false st.w c false
       ({ st with w := w' }, ["iverify " ++ verdictStr v])
   | _ =>
